@@ -1,4 +1,6 @@
 import SeqIoModel.Proofs.Iterators
+import SeqIoModel.Proofs.FastaStream
+import SeqIoModel.Proofs.FastqStream
 /-!
 # C20 – iterators obey the iterator contracts at every step
 
@@ -45,5 +47,47 @@ theorem seq_lines_len (it : SeqLinesIt) : it.len = (items it).length := len_eq i
 /-- non-vacuity: three lines, mixed steps -/
 example : (runIt (SeqLinesIt.mk' ⟨0, [3, 8, 12, 20]⟩) [.front, .back, .back, .front]).2
     = [some (3, 8), some (12, 20), some (8, 12), none] := by decide
+
+/-- helper: in `(l ++ d, d, d, …).take k` with `d ∉ l`, once `d` appears it stays -/
+theorem take_append_replicate_fused {α : Type} (l : List α) (d : α) (hd : d ∉ l) (k i j : Nat)
+    (hij : i ≤ j) (hj : j < k) (hi : ((l ++ List.replicate k d).take k)[i]? = some d) :
+    ((l ++ List.replicate k d).take k)[j]? = some d := by
+  have hik : i < k := by omega
+  rw [List.getElem?_take_of_lt hik] at hi
+  rw [List.getElem?_take_of_lt hj]
+  by_cases hil : i < l.length
+  · rw [List.getElem?_append_left hil] at hi
+    exact absurd (List.mem_of_getElem? hi) hd
+  · have hjl : l.length ≤ j := by omega
+    rw [List.getElem?_append_right hjl]
+    rw [List.getElem?_replicate]
+    have : j - l.length < k := by omega
+    simp [this]
+
+/-- the owned-record iterators (`records()`, `into_records()`: `Reader::next` mapped to an owned copy) are
+fused: once a FASTA reader has reported the end, every later call reports the end – for every input,
+capacity, growing policy and chunking -/
+theorem fasta_records_iter_fused (inp : List UInt8) (cap : Nat) (hcap : 3 ≤ cap) (pol : Pol)
+    (hpol : Fasta.PolGrows pol) (script : List ReadEv) (hs : FillProofs.NoFail script) (chunk : Nat)
+    (k i j : Nat) (hij : i ≤ j) (hj : j < k)
+    (hi : (Fasta.runNexts k (Fasta.mkReader inp cap pol script chunk))[i]? = some Fasta.Obs.none) :
+    (Fasta.runNexts k (Fasta.mkReader inp cap pol script chunk))[j]? = some Fasta.Obs.none := by
+  rw [Fasta.fasta_next_stream_polGrows inp cap hcap pol hpol script hs chunk k] at hi ⊢
+  refine take_append_replicate_fused _ _ ?_ k i j hij hj hi
+  unfold Fasta.specObs
+  split <;> simp
+
+/-- the same for the FASTQ reader -/
+theorem fastq_records_iter_fused (inp : List UInt8) (cap : Nat) (hcap : 3 ≤ cap) (pol : Pol)
+    (hpol : Fastq.PolGrows pol) (script : List ReadEv) (hs : FillProofs.NoFail script) (chunk : Nat)
+    (k i j : Nat) (hij : i ≤ j) (hj : j < k)
+    (hi : (Fastq.runNexts k (Fastq.mkReader inp cap pol script chunk))[i]? = some Fastq.Obs.none) :
+    (Fastq.runNexts k (Fastq.mkReader inp cap pol script chunk))[j]? = some Fastq.Obs.none := by
+  rw [Fastq.fastq_next_stream_polGrows inp cap hcap pol hpol script hs chunk k] at hi ⊢
+  refine take_append_replicate_fused _ _ ?_ k i j hij hj hi
+  unfold Fastq.specObs
+  intro h
+  obtain ⟨x, _, hx⟩ := List.mem_map.mp h
+  split at hx <;> cases hx
 
 end SeqIo.Thm.C20
